@@ -8,6 +8,9 @@ BUILT = {
          "independent EM byte parser + row model; recovery obligation after faults", "4/C01"),
 }
 PLANNED = {}
+BUILT["C05"] = ("pose bookkeeping over histories: seeded sessions drive up to three live lists through update/scale/shift/rotate/flip "
+                "(dimensions as list, table, array or file), inplace=False copies and save->restart->load through EM files; pose model "
+                "(position vector + explicit 3x3 matrix per particle) stepped in lock-step; faults only on the file-touching steps", "4/C05")
 BUILT["C17"] = ("tilt-series metadata: foreign microscope/processing actor populates a TS_$xxx tree (mdoc, tlt, dose, Gctf STAR, CTFFIND4, "
                 "dimension, z-shift files) from a grammar and keeps ground truth; seeded sessions open/sort/prune/write/re-read mdocs, "
                 "call the loaders on files and arrays, build STOPGAP/EM wedge lists (single, batch) with output files; missing/stale "
